@@ -59,13 +59,15 @@ HOWS = {"cc": ["inner", "left", "right", "outer", "leftsemi"], "ic": ["inner", "
 
 # ----------------------------------------------------------------------------- building operands
 def _keycol(vals):
+    """Key cells (column or index) of the real frames hold SCALE * the key of the specification: int64 when nothing is
+    missing, float64 with NaN otherwise (so the two operands may well disagree on the dtype, as real data does)."""
     if any(v == NA for v in vals):
-        return np.array([np.nan if v == NA else float(v) for v in vals], dtype="f8")
-    return np.array(list(vals), dtype="i8")
+        return np.array([np.nan if v == NA else float(SCALE * v) for v in vals], dtype="f8")
+    return np.array([SCALE * v for v in vals], dtype="i8")
 
 
 def _index(vals):
-    return pd.Index(_keycol([v if v == NA else SCALE * v for v in vals]))
+    return pd.Index(_keycol(vals))
 
 
 def merge_frames(case, naming):
@@ -139,10 +141,10 @@ def project_merge(pdf, mode, how, naming, sfx, ind):
         m = [MERGE_CODE.get(str(v), ABSENT) for v in pdf["_merge"].tolist()]
     else:
         m = [ABSENT if ind else 0] * n
-    kl = _col(pdf, "k", ABSENT) if naming == "lr" else [ABSENT] * n
-    kr = _col(pdf, "kr", NA if how == "leftsemi" else ABSENT) if naming == "lr" else [ABSENT] * n
+    kl = [unlabel(c) for c in _col(pdf, "k", ABSENT)] if naming == "lr" else [ABSENT] * n
+    kr = [unlabel(c) for c in _col(pdf, "kr", NA if how == "leftsemi" else ABSENT)] if naming == "lr" else [ABSENT] * n
     if naming == "on":
-        kc = _col(pdf, "k", ABSENT) if mode == "cc" else [unlabel(c) for c in idx]
+        kc = [unlabel(c) for c in (_col(pdf, "k", ABSENT) if mode == "cc" else idx)]
     else:
         kc = [ABSENT] * n
     if how == "leftsemi":
@@ -172,7 +174,9 @@ def project_asof(pdf):
     return [{"t": [lcol[i], rcol[i]], "idx": idx[i]} for i in range(len(pdf))]
 
 
-def observe_coll(y, proj, whole):
+def observe_coll(y, proj, whole, ordered=True):
+    """ordered=False: compute() of the whole is compared with the partitions as a multiset (a hash shuffle does not
+    promise the order in which rows arrive in a partition, and two computations may differ in it)."""
     declared = int(y.npartitions)
     divs = tuple(y.divisions)
     known = not any(d is None for d in divs)
@@ -182,7 +186,9 @@ def observe_coll(y, proj, whole):
     if whole:
         try:
             w = proj(y.compute(scheduler="sync"))
-            obs["wholeok"] = w == [r for p in parts for r in p]
+            flat = [r for p in parts for r in p]
+            canon = (lambda rows: rows) if ordered else (lambda rows: sorted(r["t"] for r in rows))
+            obs["wholeok"] = canon(w) == canon(flat)
         except Exception as ex:  # noqa: BLE001 - the partitions could be computed, the whole could not
             if is_shim_error(ex) or isinstance(ex, (CallTimeout, NotImplementedError)):
                 raise
@@ -196,17 +202,19 @@ def raised_obs(ex):
 
 
 def guarded(fn, limit=60):
-    """fn() -> (obs, strategy); every exception from dask becomes an observation or a skip."""
+    """fn(note) -> obs; note(strategy) records which lowering was chosen before anything is computed.  Every exception from
+    dask becomes an observation or a skip.  -> (obs, strategy)"""
+    strat = ["construction"]
     try:
         with time_limit(limit), warnings.catch_warnings():
             warnings.simplefilter("ignore")
-            return fn()
+            return fn(lambda s: strat.__setitem__(0, s)), strat[0]
     except NotImplementedError as ex:
-        return {"skip": "NotImplementedError: " + str(ex)[:60]}, ""
+        return {"skip": "NotImplementedError: " + str(ex)[:60]}, strat[0]
     except Exception as ex:  # noqa: BLE001 - an exception from dask is an observation
         if is_shim_error(ex):
-            return {"skip": "pyarrow shim"}, ""
-        return raised_obs(ex), "raised"
+            return {"skip": "pyarrow shim"}, strat[0]
+        return raised_obs(ex), strat[0]
 
 
 # ----------------------------------------------------------------------------- running one case on dask
@@ -214,7 +222,7 @@ def run_merge(case, how, cfg):
     sfx, mode, naming = cfg["sfx"], case["mode"], cfg["naming"]
     L, R = merge_frames(case, naming)
 
-    def go():
+    def go(note):
         dl = source(L, cfg["llay"], cfg["ldivs"], ("L", case, cfg))
         dr = source(R, cfg["rlay"], cfg["rdivs"], ("R", case, cfg))
         if cfg["api"] == "join":
@@ -224,7 +232,8 @@ def run_merge(case, how, cfg):
             y = dl.merge(dr, how=how, suffixes=tuple(sfx), indicator=cfg["ind"], shuffle_method=cfg["method"],
                          npartitions=cfg["npart"], broadcast=cfg["broadcast"], **merge_kwargs(mode, naming))
         strat = strategy_of(y)
-        return observe_coll(y, lambda p: project_merge(p, mode, how, naming, sfx, cfg["ind"]), cfg["whole"]), strat
+        note(strat)
+        return observe_coll(y, lambda p: project_merge(p, mode, how, naming, sfx, cfg["ind"]), cfg["whole"], ordered=not strat.startswith("hash"))
 
     return guarded(go)
 
@@ -247,11 +256,12 @@ def pandas_merge(case, how, cfg):
 def run_concat(case, cfg):
     pdfs = concat_frames(case)
 
-    def go():
+    def go(note):
         ddm = dd()
+        note("interleaved" if interleaves(cfg["divs"], cfg["interleave"]) else "stacked")
         colls = [source(p, cfg["lays"][f], cfg["divs"][f], ("C", f, case, cfg)) for f, p in enumerate(pdfs)]
         y = ddm.concat(colls, join=case["join"], interleave_partitions=cfg["interleave"])
-        return observe_coll(y, project_concat, cfg["whole"]), ("interleaved" if interleaves(cfg["divs"], cfg["interleave"]) else "stacked")
+        return observe_coll(y, project_concat, cfg["whole"])
 
     return guarded(go)
 
@@ -259,11 +269,12 @@ def run_concat(case, cfg):
 def run_concat1(case, cfg):
     L, R = concat1_frames(case)
 
-    def go():
+    def go(note):
         ddm = dd()
+        note("axis1")
         y = ddm.concat([source(L, cfg["llay"], cfg["ldivs"], ("XL", case, cfg)), source(R, cfg["rlay"], cfg["rdivs"], ("XR", case, cfg))],
                        axis=1, join=case["join"])
-        return observe_coll(y, project_concat1, cfg["whole"]), "axis1"
+        return observe_coll(y, project_concat1, cfg["whole"])
 
     return guarded(go)
 
@@ -271,7 +282,7 @@ def run_concat1(case, cfg):
 def asof_kwargs(case):
     kw = {"direction": case["direction"], "allow_exact_matches": bool(case["exact"])}
     if case["tol"] != NA:
-        kw["tolerance"] = case["tol"] * (SCALE if case["mode"] == "ii" else 1)
+        kw["tolerance"] = case["tol"] * SCALE
     if case["by"]:
         kw["by"] = "b"
     if case["mode"] == "ii":
@@ -284,11 +295,12 @@ def asof_kwargs(case):
 def run_asof(case, cfg):
     L, R = merge_frames(case, "on")
 
-    def go():
+    def go(note):
         ddm = dd()
+        note("asof-" + case["mode"])
         y = ddm.merge_asof(source(L, cfg["llay"], cfg["ldivs"], ("AL", case, cfg)), source(R, cfg["rlay"], cfg["rdivs"], ("AR", case, cfg)),
                            **asof_kwargs(case))
-        return observe_coll(y, project_asof, cfg["whole"]), "asof-" + case["mode"]
+        return observe_coll(y, project_asof, cfg["whole"])
 
     return guarded(go)
 
@@ -328,7 +340,7 @@ def judge(rec, exp):
         want = [jt(t, mask, rec["ind"]) for t in exp["rows"][rec["how"]]]
         same = sorted(got) == sorted(want)
         promised = rec["mode"] == "ii" and rec["lknown"] and rec["rknown"] and bool(exp["seq"])
-        if same and promised and got != [jt(t, mask, rec["ind"]) for t in exp["seq"][rec["how"]]]:
+        if same and promised and [t[5] for t in got] != [jt(t, mask, rec["ind"])[5] for t in exp["seq"][rec["how"]]]:
             bad.append("Order")
     elif op == "concat":
         want = [tuple(t) for t in exp["rows"]]
@@ -377,7 +389,8 @@ def layout_with_divs(rng, layouts, rows, want_known, tries=4):
 def merge_config(rng, layouts, case, how, exp_mask):
     mode = case["mode"]
     naming = rng.choice(sorted(exp_mask))
-    sortedii = mode == "ii" and all(r["idx"] != NA for r in case["L"] + case["R"])
+    sortedii = mode == "ii" and all(r["idx"] != NA for r in case["L"] + case["R"]) and all(
+        a["idx"] <= b["idx"] for rows in (case["L"], case["R"]) for a, b in zip(rows, rows[1:]))
     known_l = rng.random() < (0.8 if sortedii else 0.5)
     known_r = known_l if (sortedii and rng.random() < 0.85) else rng.random() < 0.5
     llay, ldivs = layout_with_divs(rng, layouts, case["L"], known_l)
@@ -489,6 +502,16 @@ def classify(fam, case, how, cfg, strategy, clauses, obs):
     group = ("raised:" + obs["raised"]) if "Raised" in clauses else next(
         (g for c, g in (("Rows", "rows"), ("Order", "order"), ("Truthful", "truthful"), ("Meta", "metadata"), ("WholeOK", "whole")) if c in clauses), "other")
     if fam == "merge":
+        # input classes behind recorded findings: the first that applies names the violation
+        if strategy == "broadcast":
+            if case["mode"] != "cc" and how != "inner" and "Raised" in clauses:
+                return "merge:broadcast+index-key:%s" % group
+            if case["mode"] in ("ic", "ci") and group == "truthful":
+                return "merge:broadcast+index-with-column:truthful"
+            if cfg["npart"] is not None and group in ("rows", "metadata"):
+                return "merge:broadcast+npartitions:%s" % group                 # any key mode, any join type
+            if how == "leftsemi" and len(cfg["llay"]) < len(cfg["rlay"]):
+                return "merge:leftsemi:broadcast-left:%s" % group               # the LEFT operand is the one being broadcast
         return "merge:%s:%s:%s:%s" % (case["mode"], how, strategy, group)
     if fam == "concat":
         return "concat:axis0:%s:%s:%s" % (case["join"], strategy, group)
@@ -572,10 +595,10 @@ def asof_config(rng, layouts, case):
 # ----------------------------------------------------------------------------- TLC
 def bounds(ctx):
     q = ctx.quick
-    return {"Keys": {0, 1, 2}, "MaxL": 4 if q else 5, "MaxR": 4 if q else 5, "Full": 4 if q else 5, "Mod": 96 if q else 40,
-            "Salt": ctx.rng.randrange(1000), "HeavyMod": 120 if q else 60, "MaxParts": 3,
-            "CFrames": 3, "CRows": 2, "CLabels": {0, 1, 2}, "CMod": 4 if q else 1,
-            "AMaxL": 3, "AMaxR": 3 if q else 4, "AKeys": {0, 1, 2} if q else {0, 1, 2, 3}, "AMod": 16 if q else 6}
+    return {"Keys": {0, 1, 2}, "MaxL": 4 if q else 5, "MaxR": 4 if q else 5, "Full": 4 if q else 5, "Mod": 160 if q else 40,
+            "Salt": ctx.rng.randrange(1000), "HeavyMod": 90 if q else 40, "MaxParts": 3,
+            "CFrames": 3, "CRows": 2, "CLabels": {0, 1, 2}, "CMod": 6 if q else 1,
+            "AMaxL": 3, "AMaxR": 3 if q else 4, "AKeys": {0, 1, 2} if q else {0, 1, 2, 3}, "AMod": 80 if q else 6}
 
 
 INVARIANTS = ["PairsSane", "HashDecomposes", "BroadcastDecomposes", "SeqIsRows", "MaskSane", "ConcatSane", "ChainTruthful",
@@ -613,7 +636,9 @@ def plan_items(ctx, cases, quota, per_case_hows):
     for c in cases:
         fam = c["c"]["fam"]
         if fam == "merge":
-            fam = "merge:" + c["c"]["mode"] + (":sorted" if c["e"]["seq"] else "")
+            srt = c["c"]["mode"] == "ii" and all(r["idx"] != NA for r in c["c"]["L"] + c["c"]["R"]) and all(
+                a["idx"] <= b["idx"] for rows in (c["c"]["L"], c["c"]["R"]) for a, b in zip(rows, rows[1:]))
+            fam = "merge:" + c["c"]["mode"] + (":sorted" if srt else "")
         byfam.setdefault(fam, []).append(c)
     items = []
     for fam in sorted(byfam):
@@ -644,6 +669,7 @@ def check_items(ctx, items, label, tlc_share=0.12, tlc_min=150):
     together with the record pandas' own result makes) and a seeded share of the others (consistency of the replay
     judge with JoinsTrace).  -> (violations [(item, rec, clauses, strategy)], records, skips)."""
     results = pmap(_work, items, chunk=16)
+    _tick(ctx, "dask runs done")
     done, skips = [], []
     for it, res in zip(items, results):
         if "guard" in res:
@@ -669,6 +695,7 @@ def check_items(ctx, items, label, tlc_share=0.12, tlc_min=150):
                 raise MachineryError("pandas refuses a random case %r: %r" % (it[2], ex))
     to_tlc += [res["rec"] for _, res in picked]
     verdict = validate(ctx, [{k2: v for k2, v in r.items()} for r in to_tlc], label)
+    _tick(ctx, "TLC decided %d records" % len(to_tlc))
     for gid, it in twins.items():
         if gid in verdict:
             raise MachineryError("reference guard: JoinsTrace rejects pandas' own result (%s) for %r how=%r" % (verdict[gid], it[2], it[3]))
@@ -706,17 +733,27 @@ def setup_dask(ctx):
     dask.config.set({"temporary-directory": ctx.scratch, "scheduler": "sync"})
 
 
+def _tick(ctx, what):
+    import os
+    import time
+    if os.environ.get("VERIF_DEBUG"):
+        print("[%6.1fs] %s" % (time.time() - ctx.t0, what), flush=True)
+
+
 def run(ctx):
     setup_dask(ctx)
     consts = bounds(ctx)
     cases = enumerate_cases(ctx, consts, ["merge", "concat", "concat1", "asof", "layouts"], "design+cases")
     ctx.extra["cases_enumerated_by_tlc"] = len(cases)
     q = ctx.quick
-    quota = {"merge:cc": 1100 if q else 9000, "merge:ii": 500 if q else 4000, "merge:ii:sorted": 900 if q else 3200,
-             "merge:ic": 450 if q else 3500, "merge:ci": 450 if q else 3500,
-             "concat": 500 if q else 6000, "concat1": 150 if q else 900, "asof": 450 if q else 6000}
+    dev = float(__import__("os").environ.get("VERIF_C39_DEV", "1"))        # development only: shrink the dask side
+    quota = {"merge:cc": 900 if q else 9000, "merge:ii": 400 if q else 4000, "merge:ii:sorted": 700 if q else 3200,
+             "merge:ic": 350 if q else 3500, "merge:ci": 350 if q else 3500,
+             "concat": 400 if q else 6000, "concat1": 120 if q else 900, "asof": 380 if q else 6000}
+    quota = {k: max(20, int(v * dev)) for k, v in quota.items()}
     items = plan_items(ctx, cases, quota, 1 if q else "all")
-    items += random_items(ctx.rng, 250 if q else 5000)
+    items += random_items(ctx.rng, 200 if q else 5000)
+    _tick(ctx, "planned %d items from %d cases" % (len(items), len(cases)))
     bad, done, skips = check_items(ctx, items, "recorded-calls")
     for s in skips:
         ctx.skip(s)
